@@ -14,9 +14,10 @@ for _h, _d in [('case', 'LOWER / UPPER arms (verbatim): ASCII, non-ASCII letters
                ('abs_least_greatest', 'ABS / LEAST / GREATEST arms: values, the first argument counts, ill-typed first argument -> empty value, ill-typed later argument skipped - 7 witnesses'),
                ('sqrt', 'SQRT arm: exact squares, ill-typed -> empty value - 3 witnesses')]:
     OBLIGATIONS.append(ob('C16.' + _h.replace('_', '.'), SC + 'c16_' + _h, _d, units=['scalar'], complete=False, bound=B))
+OBLIGATIONS.append(ob('C16.date.parts', SC + 'c16_date_parts', 'YEAR / MONTH / DAY / DOW arms (verbatim, shim calendar value for what parse_datetime returns): for every date the part asked for; DOW is 1 for Sunday .. 7 for Saturday; an argument that is no date gives an empty value', units=['scalar']))
 OBLIGATIONS.append(ob('C16.compose', 'verif_frag::evalshim::c16_scalar_dispatch', 'get_function_value, scalar branch: F(G(x), a, b) applies F to the value of G(x) and to the values of a and b, each evaluated once, in order', units=['evalshim'], complete=False, bound='1 concrete call with 3 arguments'))
 OBLIGATIONS.append(ob('C16.argument.empty', 'verif_frag::tokenloop::c02_token_loop', 'an empty string argument (`coalesce(\'\', name)`, `concat_ws(\'\', a, b)`) reaches the parser: body of the token collection loop of Parser::parse (same harness as C02.literal.empty)', units=['tokenloop'], complete=False, bound='5 token kinds'))
 CANARIES = [dict(harness=SC + 'canary_scalar_must_fail', units=['scalar']), dict(harness='verif_frag::tokenloop::canary_tokenloop_must_fail', units=['tokenloop'])]
 ASSUMPTIONS = ['std string routines (chars, skip, take, replace, trim, join, parse) executed from their real source by CBMC on the witnesses']
-NOT_COVERED = ['all argument values other than the witnesses', 'TO_BASE64 / FROM_BASE64 (any harness reaching the rbase64 crate crashes the Kani compiler: intrinsics.rs:243, measured), BIN/HEX/OCT (format! with a radix), POWER/LOG/LN/EXP (powf / log / exp are not modelled by CBMC), date functions (chrono)', 'composition through get_function_value', 'POWER/LOG/FORMAT_TIME ill-typed arguments (format!/float formatting in the same arms)']
+NOT_COVERED = ['all argument values other than the witnesses', 'TO_BASE64 / FROM_BASE64 (any harness reaching the rbase64 crate crashes the Kani compiler: intrinsics.rs:243, measured), BIN/HEX/OCT (format! with a radix), POWER/LOG/LN/EXP (powf / log / exp are not modelled by CBMC), parse_datetime and chrono behind the date functions', 'composition through get_function_value', 'POWER/LOG/FORMAT_TIME ill-typed arguments (format!/float formatting in the same arms)']
 HARNESS_TIMEOUT = 300
